@@ -31,6 +31,22 @@ pub fn case() {
     CASES.fetch_add(1, Relaxed);
 }
 
+/// Instrumentation probe: run a whole life cycle of the kernel object on one thread and require that
+/// loom saw *something* of it (at least one scheduling decision).  A kernel whose atomics / locks are
+/// not loom's would make every model vacuous; the driver turns this failure into a machinery failure
+/// (exit 2).  Deliberately coarse: a single operation that lost its synchronisation (a mutant that
+/// drops an increment, a getter that no longer looks at the once-cell) must stay a *verdict* of the
+/// oracles, not be mistaken for missing instrumentation.
+pub fn must_branch<R>(what: &str, f: impl FnOnce() -> R) -> R {
+    let b0 = BRANCHES.load(Relaxed);
+    let r = f();
+    if BRANCHES.load(Relaxed) == b0 {
+        fail!("un-instrumented", "{what}: no loom scheduling point at all: the kernel's synchronisation is not running on loom");
+    }
+    r
+}
+pub const PROBE: &str = "instrumentation-probe";
+
 thread_local! {
     static OUTCOMES: RefCell<BTreeSet<u64>> = RefCell::new(BTreeSet::new());
     static SAMPLE: RefCell<Option<String>> = RefCell::new(None);
@@ -53,7 +69,7 @@ pub fn take_outcomes() -> (Vec<u64>, Option<String>) {
     (OUTCOMES.with(|o| std::mem::take(&mut *o.borrow_mut())).into_iter().collect(), SAMPLE.with(|s| s.borrow_mut().take()))
 }
 
-#[derive(Clone, Copy, PartialEq, Debug)]
+#[derive(Clone, Copy, Debug)]
 pub enum Bound {
     /// the space is tiny: explore without preemption bound
     Unbounded,
@@ -61,6 +77,11 @@ pub enum Bound {
     Tier,
     /// a bound chosen per config (where the tier's bound does not finish in the tier's time)
     Fixed(usize),
+    /// no bound if the given measurement (run once inside a loom execution in the child, so it is a
+    /// deterministic function of the kernel source) says the subject's operations are single loom
+    /// operations, else the tier's bound.  Keeps a config exhaustive for the implementation it was
+    /// sized for and finite for a correct re-implementation that takes several atomic steps per call.
+    Adaptive(fn() -> bool),
 }
 
 /// One loom model = one configuration of a sub-check.
